@@ -137,6 +137,20 @@ class Ctx:
             res = list(ex.map(run_chunk, chunks))
         return [x for r in res for x in r]
 
+    def run_c_twice(self, lines, chunk=2000):
+        """every chunk is executed as chunk + chunk + reversed(chunk) in ONE process: -> answers of the first, second and third pass
+        (the third re-ordered back).  A result that depends on what was called before (a static cache, a value left in a
+        global) shows as a difference between the passes."""
+        from concurrent.futures import ThreadPoolExecutor
+        chunks = [lines[i:i + chunk] for i in range(0, len(lines), chunk)]
+        def work(ls):
+            out = self.run_c(ls + ls + ls[::-1], chunk=None)
+            n = len(ls)
+            return out[:n], out[n:2 * n], out[2 * n:][::-1]
+        with ThreadPoolExecutor(max_workers=12) as ex:
+            res = list(ex.map(work, chunks))
+        return [x for r in res for x in r[0]], [x for r in res for x in r[1]], [x for r in res for x in r[2]]
+
     def build_prdrv(self):
         """build-time driver (harness/prdrv.c) + dump of the RAW tables as prdata holds them"""
         t = time.time()
